@@ -73,3 +73,8 @@ var replayers = map[string]func(s *Stream, lines []string){
 }
 
 func memDB() dbm.DB { return dbm.NewMemDB() }
+
+// A discarded branch (a transaction whose later message failed, ran out of gas, or that was only simulated): between
+// `<mod>.begin` and `<mod>.abort` the messages run on a cache branch of the stream's state which is then dropped; the
+// model restores the state it had at `begin`.  Anything a keeper remembers outside the KV store breaks that.
+var inBranch bool
